@@ -1766,10 +1766,7 @@ pub fn run(ctx: &Ctx) -> Outcome {
         return replay(p);
     }
     if ctx.part.as_deref() == Some("b") {
-        // Workload B (session-level requests captured by a mock node) is built by the coordinator.
-        let mut o = Outcome::new();
-        o.inconclusive("C09 workload B (session level, mock cluster) is not part of this file");
-        return o;
+        return crate::checks::session_e2e::run_c09_b(ctx);
     }
     let mut pre = Outcome::new();
     if let Err(e) = crate::wire::self_test() {
